@@ -41,13 +41,41 @@ pub fn run_child(ctx: &mut Ctx, prop: &str, idx: usize, label: &str, timeout_s: 
     };
     let t0 = std::time::Instant::now();
     let mut hung = false;
+    // Deadlock verdicts are taken on the child's own CPU time, not on the wall clock: a child that has run
+    // longer than `timeout_s` AND has consumed (almost) no CPU during the last QUIET seconds has all its
+    // threads blocked. A child that is still computing is left alone up to a generous hard cap, whose expiry
+    // is inconclusive.
+    const QUIET: u64 = 20;
+    let cpu_ticks = |pid: u32| -> Option<u64> {
+        let t = std::fs::read_to_string(format!("/proc/{}/stat", pid)).ok()?;
+        let i = t.rfind(')')?;
+        let f: Vec<&str> = t[i + 1..].split_whitespace().collect();
+        Some(f.get(11)?.parse::<u64>().ok()? + f.get(12)?.parse::<u64>().ok()?)
+    };
+    let mut samples: std::collections::VecDeque<(std::time::Instant, u64)> = std::collections::VecDeque::new();
+    let mut last_sample = std::time::Instant::now();
     let status = loop {
         match child.try_wait() {
             Ok(Some(st)) => break Some(st),
             Ok(None) => {}
             Err(_) => break None,
         }
-        if t0.elapsed().as_secs() > timeout_s {
+        if last_sample.elapsed().as_millis() >= 250 {
+            last_sample = std::time::Instant::now();
+            if let Some(c) = cpu_ticks(child.id()) {
+                samples.push_back((last_sample, c));
+                while samples.len() > 2 && samples[1].0.elapsed().as_secs() >= QUIET {
+                    samples.pop_front();
+                }
+            }
+        }
+        let quiet = match (samples.front(), samples.back()) {
+            (Some(a), Some(b)) => a.0.elapsed().as_secs() >= QUIET && b.1.saturating_sub(a.1) < 3,
+            _ => false,
+        };
+        let overdue = t0.elapsed().as_secs() > timeout_s;
+        let hard_cap = t0.elapsed().as_secs() > timeout_s * 20;
+        if (overdue && quiet) || hard_cap {
             // diagnose before killing: where are the threads?
             hung = true;
             let stacks = std::process::Command::new("gdb")
@@ -57,15 +85,18 @@ pub fn run_child(ctx: &mut Ctx, prop: &str, idx: usize, label: &str, timeout_s: 
                 .unwrap_or_default();
             let _ = child.kill();
             let _ = child.wait();
-            let parked = stacks.matches("futex").count() + stacks.matches("lll_lock_wait").count();
             let mut tail = stacks;
             if tail.len() > 3000 {
                 tail = tail[tail.len() - 3000..].to_string();
             }
-            if parked > 0 {
-                ctx.violation(&format!("{}:deadlock", prop), label, J::obj(vec![("observed", J::s(format!("no progress for {} s; threads parked on a futex", timeout_s))), ("stacks", J::s(tail))]));
+            if overdue && quiet {
+                ctx.violation(
+                    &format!("{}:deadlock", prop),
+                    label,
+                    J::obj(vec![("observed", J::s(format!("running for {} s and no CPU time consumed during the last {} s: every thread is blocked", t0.elapsed().as_secs(), QUIET))), ("stacks", J::s(tail))]),
+                );
             } else {
-                ctx.inconclusive(format!("watchdog: child for {} made no progress for {} s (no thread parked on a lock)", label, timeout_s));
+                ctx.inconclusive(format!("watchdog: child for {} still computing after {} s (killed)", label, t0.elapsed().as_secs()));
             }
             break None;
         }
